@@ -5,7 +5,9 @@ cell-by-cell Lean model (bit-exact: same operation order).  Oracle on the implem
 zero lateral boundary, flat-bottom identity, zero at bed and surface, zero for non-divergent transports,
 positive under surface convergence; `Forcing.compute_w` / `Forcing.W` / `Forcing.wvel` on synthetic ROMS
 files (sub-grids, land, anisotropic cells, start on / between frames, updates across frames) and on the
-shipped chemicals forcing file."""
+shipped chemicals forcing file; start offsets of 2.. steps into intervals of up to 60 steps (float64 / float32 / packed
+currents, several files), Forcing.W and wvel over the update history against the time interpolation of the frames'
+vertical velocities and, on flat files, against the transport-divergence form."""
 import importlib, os, tempfile, shutil
 import numpy as np
 from .common import Driver, F, I, unF, same_bits
@@ -19,10 +21,22 @@ RULE = ("grids J,I in 4..7, K in 3..6 (one in eight: J,I in 8..12, K in 7..12; a
         "views and as frame 0/1 of a two-frame call with different levels per frame.  Forcing: synthetic float64 ROMS files "
         "(7..11 x 7..10 x 3..6, pm != pn, land cells, flat or rough, whole grid or sub-grid with i0,j0 >= 1), start on a frame / on a "
         "later frame / between frames, dt-aligned frames, consecutive and gapped update schedules across >= 2 frames; the shipped file "
-        "at steps 0..4, 60, 61, 120.  Non-trivial: every grid/field pair and every (file, schedule) pair.")
+        "at steps 0..4, 60, 61, 120.  Start offset inside a forcing interval (second family of synthetic files, twice as many): "
+        "3..6 frames spaced 1..60 model steps (dt 60..900 s), the start 2..g-1 steps after the earlier frame of an interval of g >= 3 "
+        "steps (exactly two after / exactly one before the next frame / anywhere inside), in the first, a middle or the last interval; "
+        "currents stored as float64, float32 or int16 packed with a power-of-two scale_factor; frames in one file or spread over 2-3 "
+        "files (list or glob, grid in the first); update schedules dense from step 0 to past the next frame, then gapped, to the last "
+        "frame.  The shipped file also with the start 0..59 steps after its first frame (always 2 and 59, random others), whole grid "
+        "or sub-grid, steps 0..3, around both later frames and random ones.  Non-trivial: every grid/field pair and every (file, "
+        "schedule) pair.")
 ASSUMPTIONS = ["linearity / identities compared with 1e-9 relative tolerance to the field scale; model vs implementation bit-exact",
                "Forcing.W against compute_w of the served currents: 1e-9 relative on float64 files (accumulated increments vs the closed "
                "form, equal by linearity), 1e-5 relative on the shipped file (float32 currents accumulate one float32 rounding per step)",
+               "Forcing.W / wvel at step t against the closed-form time interpolation of the two bracketing frames' vertical velocities "
+               "(frames' currents taken from what was written to the file; on flat files additionally the statement's transport-divergence "
+               "form without any call of compute_w): 1e-9 of the frames' scale on synthetic files (W is float64 whatever the storage of the "
+               "currents), 1e-5 on the shipped file (float32 decoding of the packed currents)",
+               "frame times are multiples of dt from the start time (the step of a frame is then exact)",
                "the two-frame, float32 / non-contiguous and large-grid calls are judged by the implementation-side oracles only "
                "(the model driver has no operation for them)"]
 SITE = "ladim_plugins/chemicals/gridforce.py::compute_w"
@@ -322,155 +336,213 @@ def forcing_cases(ctx, G):
 
 def run_forcing_case(ctx, G, tmp, c, case, sample=False):
     from . import romsfile
-    if True:
-        if True:
-            nx, ny, N, dt, ft, sched = case["nx"], case["ny"], case["N"], case["dt"], case["frame_times"], case["sched"]
-            mask = np.ones((ny, nx))
-            for (j, i) in case["land"]:
-                mask[j, i] = 0
-            t0 = np.datetime64("2015-09-07T01:00:00")
-            store = case.get("store", "f8")
-            # packed currents: int16 with a power-of-two scale_factor and offset 0, so that the decoded value raw*scale is the
-            # same number in float32 and float64 (the reference below uses the decoded values, not the decoding)
-            pack = dict(u=(2.0 ** -case["pack_exp"], 0.0), v=(2.0 ** -case["pack_exp"], 0.0)) if store == "packed" else None
-            bounds = [0] + list(case.get("file_cuts", [])) + [len(ft)]
-            paths = []; outs = []
-            for n_ in range(len(bounds) - 1):
-                path = os.path.join(tmp, "f%d_%d.nc" % (c, n_))
-                o = romsfile.write_roms(path, ctx.rng, nx=nx, ny=ny, N=N, frame_times=ft[bounds[n_]:bounds[n_ + 1]], t0=str(t0).replace("T", " "),
-                                        fields=(), mask=mask, flat=case["flat"], write_grid=(n_ == 0), dtype=("f4" if store == "f4" else "f8"), pack=pack)
-                paths.append(path); outs.append(o)
-            out = dict(outs[0])
-            out["u"] = np.concatenate([np.asarray(o["u"], dtype=float) for o in outs]); out["v"] = np.concatenate([np.asarray(o["v"], dtype=float) for o in outs])
-            if len(paths) == 1:
-                input_file = paths[0]
+    nx, ny, N, dt, ft, sched = case["nx"], case["ny"], case["N"], case["dt"], case["frame_times"], case["sched"]
+    mask = np.ones((ny, nx))
+    for (j, i) in case["land"]:
+        mask[j, i] = 0
+    t0 = np.datetime64("2015-09-07T01:00:00")
+    store = case.get("store", "f8")
+    # packed currents: int16 with a power-of-two scale_factor and offset 0, so that the decoded value raw*scale is the
+    # same number in float32 and float64 (the reference below uses the decoded values, not the decoding)
+    pack = dict(u=(2.0 ** -case["pack_exp"], 0.0), v=(2.0 ** -case["pack_exp"], 0.0)) if store == "packed" else None
+    bounds = [0] + list(case.get("file_cuts", [])) + [len(ft)]
+    paths = []; outs = []
+    for n_ in range(len(bounds) - 1):
+        path = os.path.join(tmp, "f%d_%d.nc" % (c, n_))
+        o = romsfile.write_roms(path, ctx.rng, nx=nx, ny=ny, N=N, frame_times=ft[bounds[n_]:bounds[n_ + 1]], t0=str(t0).replace("T", " "),
+                                fields=(), mask=mask, flat=case["flat"], write_grid=(n_ == 0), dtype=("f4" if store == "f4" else "f8"), pack=pack)
+        paths.append(path); outs.append(o)
+    out = dict(outs[0])
+    out["u"] = np.concatenate([np.asarray(o["u"], dtype=float) for o in outs]); out["v"] = np.concatenate([np.asarray(o["v"], dtype=float) for o in outs])
+    if len(paths) == 1:
+        input_file = paths[0]
+    else:
+        input_file = list(paths) if case.get("files_as") == "list" else os.path.join(tmp, "f%d_*.nc" % c)
+    conf = dict(gridforce=dict(input_file=input_file), start_time=t0, stop_time=t0 + np.timedelta64(int(ft[-1]), "s"), dt=dt, ibm_forcing=[])
+    if case["subgrid"] is not None:
+        conf["gridforce"]["subgrid"] = list(case["subgrid"])
+    cs = dict(case=case)
+    ctx.case(key=("forcing", repr(case)), nontrivial=True, sample=case if sample else None)
+    ctx.branch("forcing.start." + case["mode"]); ctx.branch("forcing.subgrid" if case["subgrid"] else "forcing.whole_grid")
+    ctx.branch("forcing.flat" if case["flat"] is not None else "forcing.rough")
+    ctx.branch("forcing.store." + store); ctx.branch("forcing.files.%s" % ("one" if len(paths) == 1 else case.get("files_as")))
+    if "offset_steps" in case:
+        ctx.size("forcing.offset_steps", case["offset_steps"]); ctx.size("forcing.interval_steps", case["interval_steps"])
+        ctx.branch("forcing.start_interval." + case["interval"])
+    try:
+        g = G.Grid(conf); f = G.Forcing(conf, g)
+    except (Exception, SystemExit) as e:
+        ctx.oracle(False, "C14.forcing.raises", SITE_F, "Grid/Forcing construction raised %r" % (e,), cs); return
+    i0, i1, j0, j1 = g.i0, g.i1, g.j0, g.j1
+    # the sub-grid's own arrays, cut from what was written to the file (independent of Grid/Forcing's slicing):
+    # rho cells j0..j1-1 x i0..i1-1; u-faces between two of those cells; currents zero on faces touching land
+    M = out["mask_rho"]
+    pm_s = out["pm"][j0:j1, i0:i1]; pn_s = out["pn"][j0:j1, i0:i1]
+    u_fr = (out["u"] * (M[:, :-1] * M[:, 1:])[None, None])[:, :, j0:j1, i0:i1 - 1]
+    v_fr = (out["v"] * (M[:-1, :] * M[1:, :])[None, None])[:, :, j0:j1 - 1, i0:i1]
+    z_w, z_r = g.z_w, g.z_r
+    flat = case["flat"] is not None
+    fsteps = [x // dt for x in ft]                      # dt-aligned frames: the model step of every frame, exactly
+    w_fr = {}; wflat_fr = {}
+
+    def frame_w(fr):
+        if fr not in w_fr:
+            w_fr[fr] = call(G, pn_s, pm_s, u_fr[fr], v_fr[fr], z_w, z_r)
+        return w_fr[fr]
+
+    def frame_wflat(fr):
+        if fr not in wflat_fr:
+            wflat_fr[fr] = flat_w_interior(pn_s, pm_s, u_fr[fr], v_fr[fr], z_w)
+        return wflat_fr[fr]
+    try:
+        for t in sched:
+            f.update(t)
+            W = f.W
+            cst = dict(cs, step=t)
+            shape_ok = W.shape == (N + 1, j1 - j0, i1 - i0)
+            ctx.oracle(shape_ok and bool(np.all(np.isfinite(W))), "C14.forcing.shape_or_not_finite", SITE_F, "step %d: W shape %r" % (t, W.shape), cst)
+            if not shape_ok:
+                break
+            lat = np.abs(W[:, 0, :]).max() + np.abs(W[:, -1, :]).max() + np.abs(W[:, :, 0]).max() + np.abs(W[:, :, -1]).max()
+            ctx.oracle(lat == 0, "C14.forcing.lateral_not_zero", SITE_F, "step %d: lateral boundary values %r" % (t, lat), cst)
+            # the served vertical velocity is the one derived from the served currents (on the sub-grid's interior
+            # faces, with the sub-grid's own pm, pn).  By linearity the time-interpolated W equals w of the
+            # time-interpolated currents; float64 file, so only rounding of the accumulated increments: 1e-9 relative.
+            # (float32 / packed files: the served currents accumulate one float32 rounding per step while W is kept
+            # in float64, so this comparison is left to the closed-form references below, which are exact for them.)
+            if store == "f8":
+                ref = call(G, pn_s, pm_s, np.asarray(f.U)[:, :, 1:-1], np.asarray(f.V)[:, 1:-1, :], z_w, z_r)
+                sc = np.abs(ref).max() + 1e-30
+                err = np.abs(W - ref).max()
+                ctx.oracle(err <= 1e-9 * sc, "C14.forcing.W_not_w_of_currents", SITE_F,
+                           "step %d: Forcing.W differs by %r (scale %r) from compute_w of the served currents" % (t, err, sc), cst)
+            if t * dt in ft:
+                fr = ft.index(t * dt)
+                ref = call(G, pn_s, pm_s, u_fr[fr], v_fr[fr], z_w, z_r)
+                sc = np.abs(ref).max() + 1e-30
+                err = np.abs(W - ref).max()
+                ctx.oracle(err <= 1e-9 * sc, "C14.forcing.W_not_w_of_frame", SITE_F,
+                           "step %d coincides with frame %d: Forcing.W differs by %r (scale %r) from compute_w of the file's currents on "
+                           "the sub-grid" % (t, fr, err, sc), cst)
+                ctx.branch("forcing.step_on_frame")
             else:
-                input_file = list(paths) if case.get("files_as") == "list" else os.path.join(tmp, "f%d_*.nc" % c)
-            conf = dict(gridforce=dict(input_file=input_file), start_time=t0, stop_time=t0 + np.timedelta64(int(ft[-1]), "s"), dt=dt, ibm_forcing=[])
-            if case["subgrid"] is not None:
-                conf["gridforce"]["subgrid"] = list(case["subgrid"])
-            cs = dict(case=case)
-            ctx.case(key=("forcing", repr(case)), nontrivial=True, sample=case if sample else None)
-            ctx.branch("forcing.start." + case["mode"]); ctx.branch("forcing.subgrid" if case["subgrid"] else "forcing.whole_grid")
-            ctx.branch("forcing.flat" if case["flat"] is not None else "forcing.rough")
-            ctx.branch("forcing.store." + store); ctx.branch("forcing.files.%s" % ("one" if len(paths) == 1 else case.get("files_as")))
-            if "offset_steps" in case:
-                ctx.size("forcing.offset_steps", case["offset_steps"]); ctx.size("forcing.interval_steps", case["interval_steps"])
-                ctx.branch("forcing.start_interval." + case["interval"])
-            try:
-                g = G.Grid(conf); f = G.Forcing(conf, g)
-            except (Exception, SystemExit) as e:
-                ctx.oracle(False, "C14.forcing.raises", SITE_F, "Grid/Forcing construction raised %r" % (e,), cs); return
-            i0, i1, j0, j1 = g.i0, g.i1, g.j0, g.j1
-            # the sub-grid's own arrays, cut from what was written to the file (independent of Grid/Forcing's slicing):
-            # rho cells j0..j1-1 x i0..i1-1; u-faces between two of those cells; currents zero on faces touching land
-            M = out["mask_rho"]
-            pm_s = out["pm"][j0:j1, i0:i1]; pn_s = out["pn"][j0:j1, i0:i1]
-            u_fr = (out["u"] * (M[:, :-1] * M[:, 1:])[None, None])[:, :, j0:j1, i0:i1 - 1]
-            v_fr = (out["v"] * (M[:-1, :] * M[1:, :])[None, None])[:, :, j0:j1 - 1, i0:i1]
-            z_w, z_r = g.z_w, g.z_r
-            flat = case["flat"] is not None
-            fsteps = [x // dt for x in ft]                      # dt-aligned frames: the model step of every frame, exactly
-            w_fr = {}; wflat_fr = {}
+                ctx.branch("forcing.step_between_frames")
+            # --- the currents of model step t are the file's frames interpolated linearly in time (closed form, from the
+            # file's own numbers: frame ka at step fsteps[ka] <= t < fsteps[ka+1], weight al); w is linear in the currents,
+            # so the vertical velocity of step t is the same interpolation of the two frames' vertical velocities.
+            # Tolerance: W is float64 and is advanced by <= 60 float64 increments per interval (each rounding <= 2^-53 of
+            # the frames' scale); the frames' own values enter exactly (float32 -> float64 is exact): 1e-9 of the scale.
+            ka = max(q for q in range(len(fsteps)) if fsteps[q] <= t)
+            ka = min(ka, len(fsteps) - 2)
+            al = (t - fsteps[ka]) / float(fsteps[ka + 1] - fsteps[ka])
+            wa, wb_ = frame_w(ka), frame_w(ka + 1)
+            Wexp = wa + al * (wb_ - wa)
+            scf = max(np.abs(wa).max(), np.abs(wb_).max()) + 1e-30
+            err = np.abs(W - Wexp).max()
+            ctx.oracle(err <= 1e-9 * scf, "C14.forcing.W_not_linear_in_time_interpolated_currents", SITE_F,
+                       "step %d (frames %d,%d at steps %d,%d, weight %r): Forcing.W differs by %r (scale %r) from the interpolation of the "
+                       "two frames' vertical velocities" % (t, ka, ka + 1, fsteps[ka], fsteps[ka + 1], al, err, scf), cst)
+            if flat:
+                # flat bottom: the statement's closed form (no call of compute_w at all) on the time-interpolated file currents
+                fa, fb = frame_wflat(ka), frame_wflat(ka + 1)
+                Fexp = fa + al * (fb - fa)
+                scf2 = max(np.abs(fa).max(), np.abs(fb).max()) + 1e-30
+                err = np.abs(W[:, 1:-1, 1:-1] - Fexp).max()
+                ctx.oracle(err <= 1e-9 * scf2, "C14.forcing.flat_identity", SITE_F,
+                           "step %d (frames %d,%d, weight %r): Forcing.W differs by %r (scale %r) from the column-integrated divergence of the "
+                           "layer transports of the step's currents, free-surface part removed" % (t, ka, ka + 1, al, err, scf2), cst)
+                ctx.branch("forcing.flat_identity")
+            if fsteps[ka] < 0:
+                ctx.branch("forcing.step_in_start_interval")
+            elif "offset_steps" in case:
+                ctx.branch("forcing.step_after_start_interval")
+            if flat:
+                sc = np.abs(W).max() + 1e-30
+                ctx.oracle(np.abs(W[0]).max() <= 1e-12 * sc and np.abs(W[-1]).max() <= 1e-9 * sc, "C14.forcing.bed_surface_not_zero", SITE_F,
+                           "step %d: bed %r surface %r (scale %r)" % (t, np.abs(W[0]).max(), np.abs(W[-1]).max(), sc), cst)
+            # sampling at nodes: the vertical velocity served at a grid node on a w-level is W there (same sign)
+            for _ in range(3):
+                jn = ctx.rng.randrange(0, j1 - j0); in_ = ctx.rng.randrange(0, i1 - i0); kn = ctx.rng.randrange(0, N + 1)
+                X = np.array([float(in_ + i0)]); Y = np.array([float(jn + j0)]); Z = np.array([-float(z_w[kn, jn, in_])])
+                try:
+                    val = float(np.asarray(f.wvel(X, Y, Z))[0])
+                except Exception as e:
+                    ctx.oracle(False, "C14.forcing.wvel_raises", SITE_W, "step %d: wvel raised %r" % (t, e), dict(cst, node=(kn, jn, in_)))
+                    continue
+                ctx.oracle(val == float(W[kn, jn, in_]), "C14.forcing.wvel_not_W_at_node", SITE_W,
+                           "step %d: wvel at node (k=%d,j=%d,i=%d) = %r, W there = %r" % (t, kn, jn, in_, val, float(W[kn, jn, in_])),
+                           dict(cst, node=(kn, jn, in_), X=X[0], Y=Y[0], Z=Z[0]))
+                # ... and it is the vertical velocity of the step's currents there (tolerance as above)
+                ctx.oracle(abs(val - float(Wexp[kn, jn, in_])) <= 1e-9 * scf, "C14.forcing.wvel_not_w_of_step_currents", SITE_W,
+                           "step %d: wvel at node (k=%d,j=%d,i=%d) = %r, vertical velocity of the step's (time-interpolated) currents there = %r "
+                           "(scale %r)" % (t, kn, jn, in_, val, float(Wexp[kn, jn, in_]), scf), dict(cst, node=(kn, jn, in_), X=X[0], Y=Y[0], Z=Z[0]))
+            ctx.branch("forcing.steps")
+    except Exception as e:
+        ctx.oracle(False, "C14.forcing.raises", SITE_F, "update / compute_w raised %r (schedule %r)" % (e, sched), cs)
+    try:
+        f.close()
+    except Exception:
+        pass
 
-            def frame_w(fr):
-                if fr not in w_fr:
-                    w_fr[fr] = call(G, pn_s, pm_s, u_fr[fr], v_fr[fr], z_w, z_r)
-                return w_fr[fr]
 
-            def frame_wflat(fr):
-                if fr not in wflat_fr:
-                    wflat_fr[fr] = flat_w_interior(pn_s, pm_s, u_fr[fr], v_fr[fr], z_w)
-                return wflat_fr[fr]
-            try:
-                for t in sched:
-                    f.update(t)
-                    W = f.W
-                    cst = dict(cs, step=t)
-                    shape_ok = W.shape == (N + 1, j1 - j0, i1 - i0)
-                    ctx.oracle(shape_ok and bool(np.all(np.isfinite(W))), "C14.forcing.shape_or_not_finite", SITE_F, "step %d: W shape %r" % (t, W.shape), cst)
-                    if not shape_ok:
-                        break
-                    lat = np.abs(W[:, 0, :]).max() + np.abs(W[:, -1, :]).max() + np.abs(W[:, :, 0]).max() + np.abs(W[:, :, -1]).max()
-                    ctx.oracle(lat == 0, "C14.forcing.lateral_not_zero", SITE_F, "step %d: lateral boundary values %r" % (t, lat), cst)
-                    # the served vertical velocity is the one derived from the served currents (on the sub-grid's interior
-                    # faces, with the sub-grid's own pm, pn).  By linearity the time-interpolated W equals w of the
-                    # time-interpolated currents; float64 file, so only rounding of the accumulated increments: 1e-9 relative.
-                    # (float32 / packed files: the served currents accumulate one float32 rounding per step while W is kept
-                    # in float64, so this comparison is left to the closed-form references below, which are exact for them.)
-                    if store == "f8":
-                        ref = call(G, pn_s, pm_s, np.asarray(f.U)[:, :, 1:-1], np.asarray(f.V)[:, 1:-1, :], z_w, z_r)
-                        sc = np.abs(ref).max() + 1e-30
-                        err = np.abs(W - ref).max()
-                        ctx.oracle(err <= 1e-9 * sc, "C14.forcing.W_not_w_of_currents", SITE_F,
-                                   "step %d: Forcing.W differs by %r (scale %r) from compute_w of the served currents" % (t, err, sc), cst)
-                    if t * dt in ft:
-                        fr = ft.index(t * dt)
-                        ref = call(G, pn_s, pm_s, u_fr[fr], v_fr[fr], z_w, z_r)
-                        sc = np.abs(ref).max() + 1e-30
-                        err = np.abs(W - ref).max()
-                        ctx.oracle(err <= 1e-9 * sc, "C14.forcing.W_not_w_of_frame", SITE_F,
-                                   "step %d coincides with frame %d: Forcing.W differs by %r (scale %r) from compute_w of the file's currents on "
-                                   "the sub-grid" % (t, fr, err, sc), cst)
-                        ctx.branch("forcing.step_on_frame")
-                    else:
-                        ctx.branch("forcing.step_between_frames")
-                    # --- the currents of model step t are the file's frames interpolated linearly in time (closed form, from the
-                    # file's own numbers: frame ka at step fsteps[ka] <= t < fsteps[ka+1], weight al); w is linear in the currents,
-                    # so the vertical velocity of step t is the same interpolation of the two frames' vertical velocities.
-                    # Tolerance: W is float64 and is advanced by <= 60 float64 increments per interval (each rounding <= 2^-53 of
-                    # the frames' scale); the frames' own values enter exactly (float32 -> float64 is exact): 1e-9 of the scale.
-                    ka = max(q for q in range(len(fsteps)) if fsteps[q] <= t)
-                    ka = min(ka, len(fsteps) - 2)
-                    al = (t - fsteps[ka]) / float(fsteps[ka + 1] - fsteps[ka])
-                    wa, wb_ = frame_w(ka), frame_w(ka + 1)
-                    Wexp = wa + al * (wb_ - wa)
-                    scf = max(np.abs(wa).max(), np.abs(wb_).max()) + 1e-30
-                    err = np.abs(W - Wexp).max()
-                    ctx.oracle(err <= 1e-9 * scf, "C14.forcing.W_not_linear_in_time_interpolated_currents", SITE_F,
-                               "step %d (frames %d,%d at steps %d,%d, weight %r): Forcing.W differs by %r (scale %r) from the interpolation of the "
-                               "two frames' vertical velocities" % (t, ka, ka + 1, fsteps[ka], fsteps[ka + 1], al, err, scf), cst)
-                    if flat:
-                        # flat bottom: the statement's closed form (no call of compute_w at all) on the time-interpolated file currents
-                        fa, fb = frame_wflat(ka), frame_wflat(ka + 1)
-                        Fexp = fa + al * (fb - fa)
-                        scf2 = max(np.abs(fa).max(), np.abs(fb).max()) + 1e-30
-                        err = np.abs(W[:, 1:-1, 1:-1] - Fexp).max()
-                        ctx.oracle(err <= 1e-9 * scf2, "C14.forcing.flat_identity", SITE_F,
-                                   "step %d (frames %d,%d, weight %r): Forcing.W differs by %r (scale %r) from the column-integrated divergence of the "
-                                   "layer transports of the step's currents, free-surface part removed" % (t, ka, ka + 1, al, err, scf2), cst)
-                        ctx.branch("forcing.flat_identity")
-                    if fsteps[ka] < 0:
-                        ctx.branch("forcing.step_in_start_interval")
-                    elif "offset_steps" in case:
-                        ctx.branch("forcing.step_after_start_interval")
-                    if flat:
-                        sc = np.abs(W).max() + 1e-30
-                        ctx.oracle(np.abs(W[0]).max() <= 1e-12 * sc and np.abs(W[-1]).max() <= 1e-9 * sc, "C14.forcing.bed_surface_not_zero", SITE_F,
-                                   "step %d: bed %r surface %r (scale %r)" % (t, np.abs(W[0]).max(), np.abs(W[-1]).max(), sc), cst)
-                    # sampling at nodes: the vertical velocity served at a grid node on a w-level is W there (same sign)
-                    for _ in range(3):
-                        jn = ctx.rng.randrange(0, j1 - j0); in_ = ctx.rng.randrange(0, i1 - i0); kn = ctx.rng.randrange(0, N + 1)
-                        X = np.array([float(in_ + i0)]); Y = np.array([float(jn + j0)]); Z = np.array([-float(z_w[kn, jn, in_])])
-                        try:
-                            val = float(np.asarray(f.wvel(X, Y, Z))[0])
-                        except Exception as e:
-                            ctx.oracle(False, "C14.forcing.wvel_raises", SITE_W, "step %d: wvel raised %r" % (t, e), dict(cst, node=(kn, jn, in_)))
-                            continue
-                        ctx.oracle(val == float(W[kn, jn, in_]), "C14.forcing.wvel_not_W_at_node", SITE_W,
-                                   "step %d: wvel at node (k=%d,j=%d,i=%d) = %r, W there = %r" % (t, kn, jn, in_, val, float(W[kn, jn, in_])),
-                                   dict(cst, node=(kn, jn, in_), X=X[0], Y=Y[0], Z=Z[0]))
-                        # ... and it is the vertical velocity of the step's currents there (tolerance as above)
-                        ctx.oracle(abs(val - float(Wexp[kn, jn, in_])) <= 1e-9 * scf, "C14.forcing.wvel_not_w_of_step_currents", SITE_W,
-                                   "step %d: wvel at node (k=%d,j=%d,i=%d) = %r, vertical velocity of the step's (time-interpolated) currents there = %r "
-                                   "(scale %r)" % (t, kn, jn, in_, val, float(Wexp[kn, jn, in_]), scf), dict(cst, node=(kn, jn, in_), X=X[0], Y=Y[0], Z=Z[0]))
-                    ctx.branch("forcing.steps")
-            except Exception as e:
-                ctx.oracle(False, "C14.forcing.raises", SITE_F, "update / compute_w raised %r (schedule %r)" % (e, sched), cs)
-            try:
-                f.close()
-            except Exception:
-                pass
+def shipped_offset_starts(ctx, G, path):
+    """The shipped file (frames 01:00, 02:00, 03:00; dt = 60 s: 60 steps per interval) with the simulation starting 0..59 steps
+    after the first frame, whole grid or a sub-grid; Forcing.W over a history of updates against the time interpolation of the
+    frames' vertical velocities.  The frames' currents are read here from the file (int16 * scale_factor in float64, zero on
+    faces touching land), not taken from the Forcing object."""
+    import netCDF4
+    nc = netCDF4.Dataset(path); nc.set_auto_maskandscale(False)
+    M = np.asarray(nc.variables["mask_rho"][:], dtype=float)
+    pm = np.asarray(nc.variables["pm"][:], dtype=float); pn = np.asarray(nc.variables["pn"][:], dtype=float)
+    u_all = np.asarray(nc.variables["u"][:], dtype=float) * float(nc.variables["u"].scale_factor)
+    v_all = np.asarray(nc.variables["v"][:], dtype=float) * float(nc.variables["v"].scale_factor)
+    nc.close()
+    u_all = u_all * (M[:, :-1] * M[:, 1:])[None, None]; v_all = v_all * (M[:-1, :] * M[1:, :])[None, None]
+    ny, nx = M.shape
+    t_first = np.datetime64("2015-09-07T01:00:00")
+    offs = [2, 59, ctx.rng.randrange(3, 59)] + [ctx.rng.randrange(0, 60) for _ in range(ctx.n(2, 30))]
+    for mm in offs:
+        sub = None
+        if ctx.rng.random() < 0.4:
+            i0 = ctx.rng.randrange(1, nx - 5); i1 = ctx.rng.randrange(i0 + 4, nx)
+            j0 = ctx.rng.randrange(1, ny - 5); j1 = ctx.rng.randrange(j0 + 4, ny)
+            sub = [i0, i1, j0, j1]
+        fs = [-mm, 60 - mm, 120 - mm]
+        sched = sorted(set([0, 1, 2, 3, 59 - mm, 60 - mm, 61 - mm, 120 - mm] + [ctx.rng.randrange(0, 121 - mm) for _ in range(6)]))
+        sched = [t for t in sched if 0 <= t <= 120 - mm]
+        conf = dict(gridforce=dict(input_file=path), start_time=t_first + np.timedelta64(60 * mm, "s"),
+                    stop_time=np.datetime64("2015-09-07T03:00:00"), dt=60, ibm_forcing=[])
+        if sub is not None:
+            conf["gridforce"]["subgrid"] = list(sub)
+        cs = dict(file="forcing.nc", start_offset_steps=mm, subgrid=sub, sched=sched)
+        ctx.case(key=("shipped.offset", mm, repr(sub)), nontrivial=True)
+        ctx.branch("shipped_forcing.start_offset." + ("on_frame" if mm == 0 else ("one_step" if mm == 1 else "two_or_more_steps")))
+        ctx.branch("shipped_forcing.subgrid" if sub else "shipped_forcing.whole_grid"); ctx.size("shipped.offset_steps", mm)
+        grid = G.Grid(conf); forc = G.Forcing(conf, grid)
+        i0, i1, j0, j1 = grid.i0, grid.i1, grid.j0, grid.j1
+        pm_s = pm[j0:j1, i0:i1]; pn_s = pn[j0:j1, i0:i1]
+        w_fr = [call(G, pn_s, pm_s, u_all[q][:, j0:j1, i0:i1 - 1], v_all[q][:, j0:j1 - 1, i0:i1], grid.z_w, grid.z_r) for q in range(3)]
+        for t in sched:
+            forc.update(t)
+            W = forc.W
+            ka = 0 if t < fs[1] else 1
+            al = (t - fs[ka]) / 60.0
+            Wexp = w_fr[ka] + al * (w_fr[ka + 1] - w_fr[ka])
+            scf = max(np.abs(w_fr[ka]).max(), np.abs(w_fr[ka + 1]).max()) + 1e-30
+            err = np.abs(W - Wexp).max() if W.shape == Wexp.shape else np.inf
+            # tolerance: Forcing decodes the int16 currents in float32 (float32(0.001) is 0.001*(1 + 4.7e-8), the product is
+            # rounded to float32: 6e-8 relative per value, amplified in w by the ratio current/divergence); W itself is float64.
+            # Measured 8.8e-8 of the frames' scale for every offset; 1e-5 as for C14.shipped.W_not_w_of_currents.
+            ctx.oracle(err <= 1e-5 * scf, "C14.shipped.W_not_linear_in_time_interpolated_currents", SITE_F,
+                       "start %d steps after the first frame, step %d (weight %r between frames %d,%d): Forcing.W differs by %r (scale %r) from the "
+                       "interpolation of the two frames' vertical velocities" % (mm, t, al, ka, ka + 1, err, scf), dict(cs, step=t))
+            ref = call(G, pn_s, pm_s, np.asarray(forc.U)[:, :, 1:-1], np.asarray(forc.V)[:, 1:-1, :], grid.z_w, grid.z_r)
+            sc = np.abs(ref).max() + 1e-30
+            err = np.abs(W - ref).max() if W.shape == ref.shape else np.inf
+            ctx.oracle(err <= 1e-5 * sc, "C14.shipped.W_not_w_of_currents", SITE_F,
+                       "start %d steps after the first frame, step %d: Forcing.W differs by %r (scale %r) from compute_w of the served currents"
+                       % (mm, t, err, sc), dict(cs, step=t))
+        forc.close()
 
 
 def run(ctx):
@@ -527,6 +599,7 @@ def run(ctx):
                 ctx.oracle(err <= 1e-5 * sc, "C14.shipped.W_not_w_of_currents", SITE_F,
                            "step %d: Forcing.W differs by %r (scale %r) from compute_w of the served currents" % (t, err, sc), dict(file="forcing.nc", step=t))
             forc.close()
+            shipped_offset_starts(ctx, G, chem_dir + "/forcing.nc")
         except (Exception, SystemExit) as e:
             ctx.oracle(False, "C14.shipped.raises", SITE_F, "Grid / Forcing on the shipped forcing file raised %r" % (e,), dict(file="forcing.nc"))
     if drv.available:
